@@ -65,7 +65,12 @@ def monC02 : ObsMonitor Obs C02St where
         if !w && ms.blockers.any (·.1 == t) then none
         else some { ms with holders := (t, w) :: ms.holders }
       | none => if ms.cancelled.contains t then some ms else none   -- Canceled only if the context was cancelled
-    | .retTry t (some w) => some { ms with holders := (t, w) :: ms.holders }
+    | .invTry t w =>
+      -- a TryLock(false) is a read acquire too: it queues behind the writers known to be waiting
+      some { ms with blockers := if w then ms.blockers else ms.waitingW.map (fun u => (t, u)) ++ ms.blockers }
+    | .retTry t (some w) =>
+      if !w && ms.blockers.any (·.1 == t) then none
+      else some { ms with holders := (t, w) :: ms.holders }
     | .invRel _ t => some { ms with holders := ms.holders.filter (fun h => h.1 != t) }
     | .envCancel t =>
       some { ms with cancelled := t :: ms.cancelled, waitingW := ms.waitingW.filter (· != t)
